@@ -648,23 +648,17 @@ def compare_generations(rep, p1, p2, s1=None):
         for e in m2:
             if e in missing:
                 missing.remove(e)
-        if not missing and extra and all(e[0].endswith(u'/') and e in m1 for e in extra):
-            rep.add('second-generation-folder-entry-duplicated', 'manifest of the second package repeats %r' % extra)
-        else:
-            sigs = set(lost_sig(e[0]) for e in missing)
-            if missing and None not in sigs and all(e[0].endswith(u'/') and e in m1 for e in extra):
-                for s in sorted(sigs):
-                    rep.add(s, 'manifest entries %r missing in the second package' % [e[0] for e in missing][:4])
-                if extra:
-                    rep.add('second-generation-folder-entry-duplicated', 'manifest of the second package repeats %r' % extra)
-            elif s1 is not None and not missing and all((e[0].endswith(u'/') and e in m1) or (e[0].endswith(u'settings.xml') and nested_at(e[0])) for e in extra):
-                rep.add('nested-section-element', 'manifest of the second package lists %r' % [e for e in extra if not e[0].endswith(u'/')])
-                if [e for e in extra if e[0].endswith(u'/')]:
-                    rep.add('second-generation-folder-entry-duplicated', 'manifest of the second package repeats %r' % [e for e in extra if e[0].endswith(u'/')])
-            elif sorted(m1) == sorted(m2):
-                rep.add('second-generation-manifest-order', 'same entries, other order')
+        for e in missing:
+            rep.add(lost_sig(e[0]) or 'second-generation-manifest-entry-lost', 'manifest entry %r of the first package is not in the second' % (e,))
+        for e in extra:
+            if e[0].endswith(u'/') and e in m1:
+                rep.add('second-generation-folder-entry-duplicated', 'manifest of the second package repeats %r' % (e,))
+            elif s1 is not None and e[0].endswith(u'settings.xml') and nested_at(e[0]):
+                rep.add('nested-section-element', 'manifest of the second package lists %r' % (e,))
             else:
-                rep.add('second-generation-manifest-differs', 'missing %r, extra %r' % (missing[:4], extra[:4]))
+                rep.add('second-generation-manifest-entry-added', 'manifest entry %r only in the second package' % (e,))
+        if not missing and not extra:
+            rep.add('second-generation-manifest-order', 'same entries, other order')
     for n in n1:
         if n in n2 and n != 'META-INF/manifest.xml':
             a = p1.data[n]; b = p2.data[n]
@@ -796,6 +790,25 @@ def run(chk, replay=None):
     tmpdir = tempfile.mkdtemp(prefix='c04-')
     try:
         if replay is None:
+            chk.assumptions += [
+                "expat/xml.sax deliver the event stream of the infoset the reference parser computes for the written part, character data cut at arbitrary places (the theorems hold for every chunking); the zip container and the manifest dispatch (pictures, sub-documents) are the subject of C03/C16 and of this check's oracle, not of its theorems",
+                "attribute converters are a parameter of the load model (generated values are fixed points of their converter; the harness applies the real converter to the recorded events); which automatic styles save() writes is a parameter of the save model (C10)",
+            ]
+            chk.notes.append('oracle: load(save(d)) vs d through qname/attributes/childNodes/data; second-generation package vs first with zipfile + expat; '
+                             'signatures are predicates on the built document / the first package')
+            def deep():
+                G2 = Gen(V, chk.rng, 'thorough')
+                for k in range(1500):
+                    rec = json.loads(json.dumps(G2.document()))
+                    try:
+                        rep, raw1, d2, s1 = run_recipe(V, rec, tmpdir)
+                    except Exception as e:
+                        chk.fail('raises:%s' % type(e).__name__, rec, repr(e)); continue
+                    for sig, det in rep.items:
+                        chk.fail(sig, rec, det)
+                    if chk.failures:
+                        return
+            chk.deep_search = deep
             chk.prove(modules=['OdfModel.Props.C04'], drivers=['drv_load'])
             drv = chk.driver('drv_load')
         if replay is not None:
